@@ -516,7 +516,7 @@ func childGen(r *mon.Run, shard int) {
 		runBytesAll(r, b, targets, byteOpts{origin: "hostile", nJunk: 2})
 		for _, tg := range allocT {
 			checkAlloc(r, tg, b, "hostile")
-			if i%4 == 0 {
+			if (i/nGenShards)%4 == 0 {
 				checkReader(r, tg, b, "hostile")
 			}
 		}
